@@ -489,7 +489,8 @@ class _Canon(ast.NodeTransformer):
     def visit_Module(self, n):
         # module-level tables `_NAME = (<literals>)` bound once and never mutated: a loop `for a, b in _NAME` inside a function
         # of the module is as static as one over a local literal (normalize.unroll_static_loops)
-        from .normalize import module_tables
+        from .normalize import module_tables, namedtuple_rows
+        n = namedtuple_rows(n)          # rows of namedtuple types are tuple displays (a table of them is a literal table)
         self._module_tables = module_tables(n)
         # record types of the module (typing.NamedTuple classes, collections.namedtuple(..) bindings): name -> field names, attached to
         # every function of the module so that value reconstruction (valueflow.Flow) can project `R(a, b).field` to the argument
